@@ -2,6 +2,7 @@ package vh
 
 import (
 	"bytes"
+	"encoding/binary"
 	"fmt"
 	"os"
 	"path/filepath"
@@ -10,7 +11,9 @@ import (
 	"time"
 
 	kv "github.com/XiXi-2024/xixi-kv"
+	"github.com/XiXi-2024/xixi-kv/datafile"
 	"github.com/XiXi-2024/xixi-kv/fio"
+	"github.com/XiXi-2024/xixi-kv/utils"
 )
 
 // shadowFS mirrors what the engine has done to the file system, from the intercepted I/O
@@ -726,3 +729,140 @@ func (r *EngineRunner) continueMerge(k int, root string, cfg []string, d1 map[st
 }
 
 var _ = bytes.Equal
+
+// holeBatch: E holebatch <nkeys> <blocks>.  A power failure loses unsynced pages in any order, not only a tail: a database
+// of its own (standard I/O) holds <nkeys> synced keys and a synced prefix that ends at a block boundary; one batch without
+// Sync rewrites every key with a value that makes its record occupy exactly <blocks> blocks; for every record of the batch,
+// an image in which the first block of that record reads back as zeros while everything behind it - the batch-finished record
+// included - reached the disk.  Every image must open, and show every key with its old value or every key with its new one.
+func (r *EngineRunner) holeBatch(nKeys, blocks int) string {
+	saved1, saved2, saved3 := fio.VerifEvent, kv.VerifFsEvent, kv.VerifMergeFile
+	fio.VerifEvent, kv.VerifFsEvent, kv.VerifMergeFile = nil, nil, nil
+	defer func() { fio.VerifEvent, kv.VerifFsEvent, kv.VerifMergeFile = saved1, saved2, saved3 }()
+	const block = 32 * 1024
+	base, err := os.MkdirTemp(r.Root, "hole")
+	if err != nil {
+		return "skip"
+	}
+	defer os.RemoveAll(base)
+	dir := filepath.Join(base, "db")
+	opts := kv.DefaultOptions
+	opts.DirPath = dir
+	opts.DataFileSize = 64 * 1024 * 1024
+	opts.FileIOType = fio.StandardFIO
+	opts.DataFileMergeRatio = 0
+	db, err := kv.Open(opts)
+	if err != nil {
+		return "skip"
+	}
+	closed := false
+	defer func() {
+		if !closed {
+			_ = db.Close()
+		}
+	}()
+	key := func(i int) []byte { return []byte(fmt.Sprintf("key-%02d", i)) }
+	oldVal := func(i int) []byte { return []byte(fmt.Sprintf("old-%02d", i)) }
+	for i := 0; i < nKeys; i++ {
+		if err := db.Put(key(i), oldVal(i)); err != nil {
+			return "skip"
+		}
+	}
+	// a filler record that ends the current block (3 bytes are left: padding)
+	rem := block - int(db.VerifActiveSize()%block)
+	fillerKey := []byte("filler")
+	fillerLen := rem - (7 + 1 + 1 + 3 + 1 + len(fillerKey)) - 3
+	if fillerLen < 200 {
+		return "skip"
+	}
+	if err := db.Put(fillerKey, bytes.Repeat([]byte{'f'}, fillerLen)); err != nil {
+		return "skip"
+	}
+	if left := block - int(db.VerifActiveSize()%block); left > 7 && left != block {
+		return "skip"
+	}
+	if err := db.Sync(); err != nil {
+		return "skip"
+	}
+	synced := db.VerifActiveSize()
+	b := db.NewBatch(kv.BatchOptions{Sync: false})
+	var idBuf [binary.MaxVarintLen64]byte
+	idLen := binary.PutUvarint(idBuf[:], b.VerifBatchID())
+	newLen := blocks*(block-7) - (1 + 1 + 3 + idLen + len(key(0))) - 3
+	newVal := func(i int) []byte { return bytes.Repeat([]byte{byte('A' + i)}, newLen) }
+	for i := 0; i < nKeys; i++ {
+		if err := b.Put(key(i), newVal(i)); err != nil {
+			_ = b.Commit()
+			return "skip"
+		}
+	}
+	if err := b.Commit(); err != nil {
+		return "skip"
+	}
+	var starts []int64
+	for i := 0; i < nKeys; i++ {
+		p := db.VerifPos(key(i))
+		if p == nil || p.Offset != 0 || int64(p.BlockID)*block < synced || p.Fid != 0 {
+			return "skip" // the layout is not the one this experiment is about
+		}
+		starts = append(starts, int64(p.BlockID)*block)
+	}
+	_ = db.Close()
+	closed = true
+	images := 0
+	for lost := 0; lost < nKeys; lost++ {
+		img := filepath.Join(base, fmt.Sprintf("img%d", lost))
+		if err := utils.CopyDir(dir, img, []string{datafile.FileLockSuffix}); err != nil {
+			continue
+		}
+		name := datafile.GetFileName(img, 0, datafile.DataFileSuffix)
+		f, err := os.OpenFile(name, os.O_RDWR, 0644)
+		if err != nil {
+			continue
+		}
+		_, werr := f.WriteAt(make([]byte, block), starts[lost])
+		_ = f.Close()
+		if werr != nil {
+			continue
+		}
+		images++
+		o2 := opts
+		o2.DirPath = img
+		func() {
+			defer func() {
+				if e := recover(); e != nil {
+					r.fail("C04", "power failure that lost the block at %d of an unsynced batch (record %d of %d, %d block(s) each): Open panicked: %v", starts[lost], lost, nKeys, blocks, e)
+				}
+			}()
+			db2, err := kv.Open(o2)
+			if err != nil {
+				r.fail("C03", "power failure that lost the block at %d of an unsynced batch (record %d of %d): Open failed: %s", starts[lost], lost, nKeys, EngErr(err))
+				return
+			}
+			defer db2.Close()
+			nNew, nOld := 0, 0
+			var state []string
+			for i := 0; i < nKeys; i++ {
+				v, err := db2.Get(key(i))
+				switch {
+				case err == nil && bytes.Equal(v, newVal(i)):
+					nNew++
+					state = append(state, "new")
+				case err == nil && bytes.Equal(v, oldVal(i)):
+					nOld++
+					state = append(state, "old")
+				default:
+					state = append(state, "other")
+				}
+			}
+			if nNew != nKeys && nOld != nKeys {
+				r.fail("C04", "power failure that lost the block at %d of an unsynced batch (record %d of %d, %d block(s) each) while the rest of the batch reached the disk: after the restart the batch is visible in part: %v", starts[lost], lost, nKeys, blocks, state)
+			}
+		}()
+		_ = os.RemoveAll(img)
+	}
+	if images == 0 {
+		return "skip"
+	}
+	return "ok"
+}
